@@ -185,3 +185,12 @@ Qed.
 
 Lemma phase_step_bad : forall e, phase_step PBad e = PBad.
 Proof. destruct e; reflexivity. Qed.
+
+Lemma item_eqb_refl : forall a, item_eqb a a = true.
+Proof. intros [n v]. unfold item_eqb. cbn. rewrite Nat.eqb_refl, Z.eqb_refl. reflexivity. Qed.
+
+Lemma item_eqb_eq : forall a b, item_eqb a b = true -> a = b.
+Proof.
+  intros [n v] [m w]. unfold item_eqb. cbn. intro H. apply andb_prop in H. destruct H as [H1 H2].
+  apply Nat.eqb_eq in H1. apply Z.eqb_eq in H2. congruence.
+Qed.
